@@ -39,8 +39,17 @@ pub fn network(ironwood: bool) -> LocalNetwork {
 impl W {
     /// A fresh wallet with one account whose birthday is the Sapling activation height.
     pub fn new(ironwood: bool) -> (W, Vec<Keys>) {
+        Self::with_retention(ironwood, None)
+    }
+
+    /// As `new`, with a custom anchor-retention interval (blocks) instead of the ZIP 318 default.
+    pub fn with_retention(ironwood: bool, interval: Option<u32>) -> (W, Vec<Keys>) {
         let net = network(ironwood);
-        let st = TestBuilder::new()
+        let mut b = TestBuilder::new();
+        if let Some(i) = interval {
+            b = b.with_anchor_retention_interval(zcash_protocol::zip318::AnchorBucketInterval::custom(std::num::NonZeroU32::new(i).unwrap()));
+        }
+        let st = b
             .with_network(net)
             .with_data_store_factory(TestDbFactory::default())
             .with_block_cache(BlockCache::new())
